@@ -2,6 +2,6 @@ SPECIFICATION Spec
 CONSTANTS Streams = {1,2}
   Rounds = 3
   Variant = "None"
-INVARIANTS OneStream OncePerResume BlockedCount
+INVARIANTS TerminatedFinal OneStream OncePerResume BlockedCount
 PROPERTY Done
 CHECK_DEADLOCK FALSE
